@@ -95,6 +95,10 @@ package rwriter
 //@   ensures-local result1 != nil && !optErr ==> count("call:apierror.New") == 1 && typeis(result1, "*apierror.Error")
 //@   ensures-local result1 == nil ==> result0 != nil && count("call:apierror.New") == 0 && result0.status == 200
 //@   ensures-local result1 == nil ==> (result0.nd ==> count("call:Set") == 3) && (!result0.nd ==> count("call:Set") == 1)
+// ... and for each of these reasons it IS refused: a writer is handed out only for a request that names a
+// supported media type, or names none at all when JSON is preferred; the mode served is the one negotiated
+//@   ensures-local result1 == nil ==> ite(len(accepts) == 0, opts.preferJson, okJson || nd) && result0.nd == nd
+//@   ensures-local result1 == nil ==> str(result0.pathType) == str(pathType) && (str(pathType) == str(opts.mhPathType) || str(pathType) == str(opts.cidPathType)) && str(pathType) != str("")
 
 //@ func (*ResponseWriter).WriteHeader
 //@   property C19
